@@ -89,6 +89,10 @@ fn apply_setup(ctx: &mut ExecCtx, req: &Value, fresh: bool) -> Result<(), String
         ctx.state = LlamaState::new();
         ctx.bus.mem.clear();
     }
+    // keep the executor and the (hidden) state of the core, but replace the whole memory image (C07 histories)
+    if req.get("clear_mem").and_then(|c| c.as_bool()).unwrap_or(false) {
+        ctx.bus.mem.clear();
+    }
     ctx.bus.reads.clear();
     ctx.bus.writes.clear();
     if let Some(d) = req.get("default").and_then(|d| d.as_u64()) {
